@@ -37,6 +37,11 @@ PALETTES = [
 ]
 
 
+NAMES = {1: "alpha beta", 2: "Glucose (D)", 3: "x<y & z"}
+FORMULAS = {1: "C6H12O6", 2: "H2O", 3: "C10H12N5O13P3"}
+SUBSYS = {1: "Glycolysis", 2: "Transport, extracellular", 3: "S_ub"}
+
+
 class Skip(Exception):
     """The driver cannot perform the abstract operation on the real state (entity absent ...)."""
 
@@ -530,6 +535,29 @@ class ModelDriver:
                     warnings.simplefilter("ignore")
                     model.remove_groups([cobra.core.Group(self.grp[op["g"]])])
             return None
+        if a == "SetAttr":
+            x, field, v = op["x"], op["field"], op["v"]
+            if x in self.rx:
+                o = self.get_rxn(model, x)
+            elif x in self.met:
+                o = self.get_met(model, x)
+            else:
+                o = self.get_gene(model, x)
+            if field == "name":
+                o.name = NAMES[v]
+            elif field == "formula":
+                if x not in self.met:
+                    raise Skip("formula is a metabolite attribute")
+                o.formula = FORMULAS[v]
+            elif field == "charge":
+                if x not in self.met:
+                    raise Skip("charge is a metabolite attribute")
+                o.charge = None if v == 99 else v
+            else:
+                if x not in self.rx:
+                    raise Skip("subsystem is a reaction attribute")
+                o.subsystem = SUBSYS[v]
+            return None
         if a == "Annotate":
             x = op["x"]
             if x == "MODEL":
@@ -676,6 +704,29 @@ class ModelDriver:
                         note[x] = int(ob.notes.get("tok", "0"))
                     except (TypeError, ValueError):
                         inexact.append("ann:%s:bad" % x)
+        attr = {x: {"name": 0, "formula": 0, "charge": 99, "subsys": 0} for x in RX + MET + GENE + GRP + ["MODEL"]}
+        rn = {v: k for k, v in NAMES.items()}
+        rf = {v: k for k, v in FORMULAS.items()}
+        rs = {v: k for k, v in SUBSYS.items()}
+        for kind, uni, conc, lst in (("rxns", RX, self.rx, model.reactions), ("mets", MET, self.met, model.metabolites),
+                                     ("genes", GENE, self.gene, model.genes)):
+            for x in uni:
+                if conc[x] in lst:
+                    ob = lst.get_by_id(conc[x])
+                    attr[x]["name"] = rn.get(ob.name, 0)
+                    if kind == "mets":
+                        attr[x]["formula"] = rf.get(ob.formula if isinstance(ob.formula, str) else "", 0)
+                        ch = ob.charge
+                        if ch is None:
+                            attr[x]["charge"] = 99
+                        elif isinstance(ch, (int, float)) and float(ch) == int(ch) and abs(ch) < 50:
+                            attr[x]["charge"] = int(ch)
+                        else:
+                            attr[x]["charge"] = 77
+                            inexact.append("charge:%s:bad" % x)
+                    if kind == "rxns":
+                        attr[x]["subsys"] = rs.get(ob.subsystem, 0)
+        o["attr"] = attr
         for g in GRP:
             ann[g] = 0
             note[g] = 0
